@@ -551,15 +551,103 @@ func c05Misc(x *mc.Exec) {
 	}
 }
 
+// c05AfterEdits: "every resource's type exists in the schema" must also hold
+// after the schema was edited: all histories of depth 4 over AddType / RemoveType
+// of three names and a lookup probe, then identifiers and resources of each name
+// are unmarshaled.
+func c05AfterEdits(x *mc.Exec) {
+	names := []string{"a", "b", "c"}
+	s := &j.Schema{}
+	present := map[string]bool{}
+	desc := ""
+	depth := 4
+	if Thorough() {
+		depth = 5
+	}
+	for i := 0; i < depth; i++ {
+		op := x.Choose(2*len(names)+1, "edit")
+		switch {
+		case op < len(names):
+			n := names[op]
+			err := s.AddType(j.Type{Name: n, Attrs: map[string]j.Attr{"x": {Name: "x", Type: j.AttrTypeString}}, Rels: map[string]j.Rel{}})
+			if err == nil {
+				present[n] = true
+			}
+			desc += "AddType(" + n + "); "
+		case op < 2*len(names):
+			n := names[op-len(names)]
+			s.RemoveType(n)
+			delete(present, n)
+			desc += "RemoveType(" + n + "); "
+		default:
+			for _, n := range names {
+				_ = s.HasType(n)
+				_ = s.GetType(n)
+			}
+			desc += "lookups; "
+		}
+	}
+	x.Render(desc)
+	x.R.Sample("after-edits", desc)
+	x.R.Mark("nontrivial", mc.Hash(desc))
+	for _, n := range names {
+		idPayload := []byte(fmt.Sprintf(`{"type":%q,"id":"1"}`, n))
+		var id j.Identifier
+		var err error
+		if p := Try(func() { id, err = j.UnmarshalIdentifier(idPayload, s) }); p != "" {
+			x.Fail("C05:after-edits:panic", "after [%s] UnmarshalIdentifier(%s) panicked: %s", desc, idPayload, p)
+			continue
+		}
+		x.R.Add("transitions", 1)
+		if (err == nil) != present[n] {
+			x.Fail("C05:after-edits:identifier-type", "after [%s] UnmarshalIdentifier(%s) returned (%+v, %v) but type %q present=%v", desc, idPayload, id, err, n, present[n])
+		}
+		resPayload := []byte(fmt.Sprintf(`{"type":%q,"id":"1","attributes":{"x":"v"}}`, n))
+		for _, entry := range []string{"UnmarshalResource", "UnmarshalPartialResource", "UnmarshalDocument"} {
+			var r j.Resource
+			pl := resPayload
+			if p := Try(func() {
+				switch entry {
+				case "UnmarshalResource":
+					r, err = j.UnmarshalResource(pl, s)
+				case "UnmarshalPartialResource":
+					var sr *j.SoftResource
+					sr, err = j.UnmarshalPartialResource(pl, s)
+					if sr != nil {
+						r = sr
+					}
+				default:
+					var d *j.Document
+					d, err = j.UnmarshalDocument([]byte(`{"data":`+string(pl)+`}`), s)
+					if d != nil {
+						r, _ = d.Data.(j.Resource)
+					}
+				}
+			}); p != "" {
+				x.Fail("C05:after-edits:panic", "after [%s] %s(%s) panicked: %s", desc, entry, pl, p)
+				continue
+			}
+			x.R.Add("transitions", 1)
+			switch {
+			case (err == nil) != present[n]:
+				x.Fail("C05:after-edits:resource-type", "after [%s] %s(%s) error=%v but type %q present=%v", desc, entry, pl, err, n, present[n])
+			case err == nil && (r == nil || r.GetType().Name != n || r.Get("x") != "v"):
+				x.Fail("C05:after-edits:resource-content", "after [%s] %s(%s) returned a resource of type %q", desc, entry, pl, r.GetType().Name)
+			}
+		}
+	}
+}
+
 func init() {
 	_ = sort.Strings
 	Register(&Prop{
 		ID: "C05",
-		Rule: "Engine A, all choices Full. Four generators, each exhaustive within its bound, against a soft and a struct-backed schema holding all 28 kinds and 9 entry points (UnmarshalDocument/Resource/PartialResource/Collection/Identifier/Identifiers, NewRequest with POST/PATCH/GET): (a) ALL byte strings of length <= 4 (thorough 6) over the 13-symbol alphabet { } [ ] \" : , \\ n 1 a space 0xFF; (b) every truncation point of 8 valid base payloads; (c) in every base payload every value position replaced by each of 14 deviations (wrong JSON kinds, nested values, huge number, unknown type, deletion): all single replacements, all double replacements for the resource/identifiers bases (all bases in thorough); (d) nesting ladder 1..20000 at 5 positions; plus ~90 hand-written payloads (duplicate keys, included:[null], unknown/missing types, non-canonical values) and the full 28 kinds x 16 JSON values matrix. Oracle: no panic; exactly one of (result, error); every returned resource's type is in the schema, every attribute holds exactly the declared Go type (or nil for nullable), to-one string, to-many []string. Non-trivial = a payload accepted by some entry point, or a deviating/hand-written payload",
+		Rule: "Engine A, all choices Full. Four generators, each exhaustive within its bound, against a soft and a struct-backed schema holding all 28 kinds and 9 entry points (UnmarshalDocument/Resource/PartialResource/Collection/Identifier/Identifiers, NewRequest with POST/PATCH/GET): (a) ALL byte strings of length <= 4 (thorough 6) over the 13-symbol alphabet { } [ ] \" : , \\ n 1 a space 0xFF; (b) every truncation point of 8 valid base payloads; (c) in every base payload every value position replaced by each of 14 deviations (wrong JSON kinds, nested values, huge number, unknown type, deletion): all single replacements, all double replacements for the resource/identifiers bases (all bases in thorough); (d) nesting ladder 1..20000 at 5 positions; plus ~90 hand-written payloads (duplicate keys, included:[null], unknown/missing types, non-canonical values) and the full 28 kinds x 16 JSON values matrix. plus every history of 4 (thorough 5) AddType/RemoveType/lookup steps over three type names followed by unmarshaling an identifier and a resource of each name. Oracle: no panic; exactly one of (result, error); every returned resource's type is in the schema, every attribute holds exactly the declared Go type (or nil for nullable), to-one string, to-many []string. Non-trivial = a payload accepted by some entry point, or a deviating/hand-written payload",
 		Harnesses: []Harness{
 			{Name: "C05/bytes", Body: c05Bytes, ShardDepth: 2},
 			{Name: "C05/deviations", Body: c05Deviations},
 			{Name: "C05/misc", Body: c05Misc},
+			{Name: "C05/after-edits", Body: c05AfterEdits},
 		},
 	})
 }
